@@ -38,3 +38,11 @@ package api
 //@ func Context.SetGasAccountant
 //@   props C08 C09
 //@   modifies c.gasAccountant
+
+//@ ghost func Signer(c *Context) signature.PublicKey { return c.txSigner }
+//@ import "github.com/oasisprotocol/oasis-core/go/common/crypto/signature"
+
+//@ func Context.TxSigner
+//@   props C08 C09 C17
+//@   modifies nothing
+//@   ensures result == Signer(c)
